@@ -9,9 +9,10 @@ from vcheck import Case, hx, flist, parse_vals, compare_lines
 PID = "C17"
 COQ = os.path.join(vbuild.VERIF, "coq")
 EPS = 2.0 ** -53
-RULE = ("non-trivial = scalar argument aimed at a branch (within a few ulp of |x| = 0.2, of a power of ten, of a change of the "
+RULE = ("non-trivial = scalar argument aimed at a branch (within a few ulp of |x| = 0.2, of a power of ten (for Round also 1e-16 .. 0.5 relative "
+        "below / above every power of ten and within 2 ulp of every power of two of the 600 decades), of a change of the "
         "Dawson sampling index n0, of a rounding tie, p within 1e-6 of +-1, relative difference within a few ulp of the tolerance, "
-        "zero arguments) or a guard (digits > 7, |p| >= 1, component outside 0..2), or a harmonic (l,m) with |m| >= l-1, or a "
+        "zero arguments, both arguments among the first subnormals / smallest normal / largest doubles) or a guard (digits > 7, |p| >= 1, component outside 0..2), or a harmonic (l,m) with |m| >= l-1, or a "
         "direction on a pole / the equator / an axis; distinct by case text")
 LEVEL_TEXT = ("Theorems (Coq): over the abstract order (no arithmetic law, valid for doubles) the translated Sign, Sign(x,y), StepFunction meet "
               "their case specifications; over R Floats_Equal is symmetric and reflexive (Relative_Difference(a,a) = 0, also at 0), Round meets "
@@ -25,7 +26,7 @@ LEVEL_TEXT = ("Theorems (Coq): over the abstract order (no arithmetic law, valid
               "Erfi's 1e-6 accuracy for all x, and Inv_Erf's 1e-4 on the doubles themselves (kernel-certified at sampled points by Coq-Interval against the integral "
               "definitions: |D - int_0^x exp(t^2-x^2)| <= 2e-7, |Erfi - erfi| <= 1e-6 |erfi|, erf(y-1e-4) < p < erf(y+1e-4): S3; and tested against an "
               "independent 50-digit reference, S4), conjugation symmetry of boost's Y_lm and that boost's Y_lm satisfies the recurrences (tested, S4), "
-              "floating-point behaviour of Round (tested over 600 decades, d = 1..7).")
+              "floating-point behaviour of Round (tested in every decade and every binade of the 600 decades, d = 1..7).")
 LEVEL_NOTE = ("Coq 8.16.1 kernel; T-tie: tools/cxx2gallina.py regenerates coq/Gen_C17_Formulas.v from clang's AST of src/Special_Functions.cpp before the proofs are rebuilt; "
               "C-tie: extraction (ExtrOcamlBasic only) run against the library; premises inside theorem statements: the three recurrences and the gradient identity of spherical harmonics, "
               "Find_Root's accuracy guarantee (C02); boost::math::spherical_harmonic, std::floor/log10/pow/exp/erf modelled by specification (same libm in the float instance); "
@@ -63,6 +64,12 @@ SPECIAL = [0.0, -0.0, 5e-324, -5e-324, 2.2250738585072014e-308, 1.0, -1.0, 0.2, 
 
 def rand_decades(rng, lo=-300, hi=300):
     return rng.choice([-1, 1]) * rng.uniform(1, 10) * 10.0 ** rng.randint(lo, hi)
+
+
+def round_edge(rng):
+    """an argument next to a power of ten or a power of two anywhere in the 600 decades, at a relative distance 1e-16 .. 0.1 (or on it)"""
+    c = float(f"1e{rng.randint(-300, 300)}") if rng.random() < 0.5 else math.ldexp(1.0, rng.randint(-997, 996))
+    return rng.choice([1, -1]) * c * (1.0 + rng.choice([1, -0.5, 0]) * 10.0 ** -rng.uniform(1, 16))
 
 
 def directions(rng, nrand):
@@ -104,6 +111,18 @@ def generate(rng, tier):
         if math.isinf(a - b) or math.isinf(b): b = a / 2
         cs.append(Case(f"reldiff {hx(a)} {hx(b)}", ("reldiff",) + tag))
         cs.append(Case(f"feq {hx(a)} {hx(b)} {hx(tol)}", ("feq",) + tag))
+    # the bottom and the top of the range: the first subnormals, the smallest normal number and the largest doubles, crossed (with both signs and zero)
+    edge = [0.0, 5e-324, 1e-323, 1.5e-323, 2e-323, 3.5e-323, ulps(2.2250738585072014e-308, -1), 2.2250738585072014e-308, ulps(2.2250738585072014e-308, 1),
+            4.450147717014403e-308, 8.98846567431158e307, ulps(1.7976931348623157e308, -1), 1.7976931348623157e308]
+    for a in edge:
+        for b in edge:
+            for sb in ((1, -1) if big else (rng.choice([1, -1]),)):
+                if a == 0.0 and b == 0.0: continue
+                a1, b1 = a * rng.choice([1, -1]), b * sb
+                if math.isinf(a1 - b1): continue
+                tol = rng.choice([1e-10, 1e-6, 0.5, 1e-15])
+                cs.append(Case(f"reldiff {hx(a1)} {hx(b1)}", ("reldiff", "nt", "range-edge")))
+                cs.append(Case(f"feq {hx(a1)} {hx(b1)} {hx(tol)}", ("feq", "nt", "range-edge")))
     for z1 in (0.0, -0.0):
         for z2 in (0.0, -0.0):
             cs.append(Case(f"reldiff {hx(z1)} {hx(z2)}", ("reldiff", "nt", "zero")))
@@ -126,6 +145,33 @@ def generate(rng, tier):
             n = rng.randint(10 ** (d - 1), 10 ** d - 1)
             x = (n + 0.5) * 10.0 ** (k - d + 1) if abs(k - d + 1) < 300 else p
             rnd(ulps(x, rng.randint(-2, 2)), ulps(x, 3), d, "nt", "tie")
+    # ---- Round, EVERY decade (also in the quick tier): below / above the power of ten on a geometric ladder of distances
+    #      (1 .. 1000 units of the d-th digit, and 1e-16 .. 0.5 relative independent of d), random mantissas in between
+    lad = lambda lo, hi: 10.0 ** -rng.uniform(lo, hi)
+    for k in range(-300, 301):
+        p = float(f"1e{k}")
+        for d in (range(1, 8) if big else rng.sample(range(1, 8), 2)):
+            u = 10.0 ** (-d)
+            delta = min(0.5, rng.uniform(0.3, 30) * 10.0 ** rng.randint(0, 2) * u)        # a few .. a few thousand units of the d-th digit below 10^k
+            x = p * (1.0 - delta)
+            rnd(x, x * (1.0 + rng.uniform(0, 3) * u), d, "nt", "below-power-ladder")
+            x = p * (1.0 - lad(0.3, 16))
+            rnd(x, rng.choice([p, x * (1.0 + rng.uniform(0, 3) * u)]), d, "nt", "below-power-ladder")
+            x = p * (1.0 + lad(0.3, 16))
+            rnd(rng.choice([p, x * (1.0 - rng.uniform(0, 1) * u)]), x, d, "nt", "above-power-ladder")
+    # ---- Round, EVERY binade inside the 600 decades (2^-997 .. 2^996): the power of two and its neighbours, arguments just above / below
+    #      it on the same geometric ladder, and a random mantissa (decimal exponent and binary exponent are related only through log10(2))
+    for e2 in range(-997, 997):
+        b = math.ldexp(1.0, e2)
+        for d in (range(1, 8) if big else rng.sample(range(1, 8), 2)):
+            u = 10.0 ** (-d)
+            x = ulps(b, rng.choice([0, 0, 1, 2, -1, -2]))
+            rnd(x, x * (1.0 + rng.uniform(0, 3) * u), d, "nt", "power-of-two")
+            x = b * (1.0 + rng.choice([1, 1, -0.5]) * lad(1, 16))
+            rnd(x, x * (1.0 + rng.uniform(0, 3) * u), d, "binade-edge")
+            if big:
+                x = b * rng.uniform(1, 2) * rng.choice([1, -1])
+                rnd(x, x + abs(x) * rng.uniform(0, 3) * u, d, "binade")
     for _ in range(2000 if big else 200):
         d = rng.randint(1, 7); x = float(rng.randint(-10 ** 7, 10 ** 7)); y = x + rng.randint(0, 1000)
         rnd(x, y, d, "integer")
@@ -136,12 +182,13 @@ def generate(rng, tier):
         rnd(0.0, 0.0, d, "nt", "zero"); rnd(-0.0, 1.0, d, "nt", "zero")
         rnd(123.456, 123.5, d, "nt", "guard" if d > 7 else "digits")
     rnd(2.5, 3.0, 0, "digits0")          # outside the quantifier; correspondence only
-    for _ in range(200 if big else 20):
-        d = rng.choice([1, 2, 3, 5, 7, 7, 8, 12])
-        v = [rng.choice([0.0, rand_decades(rng, -30, 30)]) for _ in range(rng.randint(0, 6))]
+    for _ in range(600 if big else 60):
+        d = rng.choice([1, 2, 3, 4, 5, 6, 7, 7, 8, 12])
+        el = lambda: rng.choice([0.0, rand_decades(rng, -30, 30), rand_decades(rng, -30, 30), rand_decades(rng), round_edge(rng), round_edge(rng)])
+        v = [el() for _ in range(rng.randint(0, 6))]
         cs.append(Case(f"roundv {d} {flist(v)}", ("roundv",) + (("nt",) if d > 7 else ())))
         rows, cols = rng.randint(1, 4), rng.randint(1, 4)
-        t = [[rng.choice([0.0, rand_decades(rng, -30, 30)]) for _ in range(cols)] for _ in range(rows)]
+        t = [[el() for _ in range(cols)] for _ in range(rows)]
         cs.append(Case(f"roundm {d} {rows} " + " ".join(flist(r) for r in t), ("roundm",) + (("nt",) if d > 7 else ())))
     # ---- Dawson, Erfi: |x| <= 30, both sides of 0.2, of every change of n0 (|x| = 0.4, 1.2, 2.0, ...), tiny, zero
     def de(x, *tags):
@@ -159,6 +206,11 @@ def generate(rng, tier):
         elif r < 0.9: x = rng.uniform(-30, 30)
         else: x = rng.choice([-1, 1]) * 10 ** rng.uniform(-20, -1)
         de(x)
+    # every binade of 0 < |x| <= 30 (subnormals included), random mantissa and the power of two itself
+    for e2 in range(-1074, 5):
+        for _ in range(4 if big else 1):
+            x = math.ldexp(rng.choice([1.0, rng.uniform(1, 2), rng.uniform(1, 2)]), e2) * rng.choice([1, -1])
+            if abs(x) <= 30: de(x, "binade")
     # ---- Inv_Erf: (-1,1) up to 1 - 1e-12 (and closer, down to the last double below 1); guards
     ps = [0.0, -0.0, 0.5, -0.5, 1e-300, 1e-17, -1e-9, 0.999, -0.999]
     for k in range(1, 16): ps += [1 - 10.0 ** -k, -(1 - 10.0 ** -k)]
@@ -170,6 +222,15 @@ def generate(rng, tier):
         r = rng.random()
         p = rng.uniform(-1, 1) if r < 0.6 else rng.choice([-1, 1]) * (1 - 10 ** rng.uniform(-12, -1)) if r < 0.9 else rng.choice([-1, 1]) * 10 ** rng.uniform(-18, -1)
         cs.append(Case(f"inverf {hx(p)}", ("inverf",)))
+    # every binade of |p| (2^-70 .. 1/2) and of 1 - |p| (down to 2^-52; the property's range ends at 1e-12 ~ 2^-40), random mantissas
+    for e2 in range(-70, 0):
+        for _ in range(16 if big else 4):
+            p = math.ldexp(rng.choice([1.0, rng.uniform(1, 2), rng.uniform(1, 2), rng.uniform(1, 2)]), e2) * rng.choice([1, -1])
+            if abs(p) < 1: cs.append(Case(f"inverf {hx(p)}", ("inverf", "binade")))
+    for e2 in range(-52, -1):
+        for _ in range(8 if big else 2):
+            p = (1.0 - math.ldexp(rng.uniform(1, 2), e2)) * rng.choice([1, -1])
+            cs.append(Case(f"inverf {hx(p)}", ("inverf", "binade", "nt") if abs(p) > 1 - 1e-6 else ("inverf", "binade")))
     # ---- coefficient tables: every (component, l, m, l_hat, m_hat) in a box (also outside |m| <= l and the selection rules)
     lmax = 13 if big else 6
     for fn in ("ycomp", "psicomp"):
